@@ -21,6 +21,8 @@ pub mod replay;
 #[cfg(verif_replay)]
 pub mod selftest;
 
+pub mod acc;
+pub mod acc_data;
 pub mod c01;
 pub mod c02;
 pub mod c03;
@@ -49,5 +51,5 @@ fn serde_table() -> &'static [(&'static str, fn())] { c20::sd::TABLE }
 fn serde_table() -> &'static [(&'static str, fn())] { &[] }
 
 pub fn table() -> impl Iterator<Item = &'static (&'static str, fn())> {
-    c01::TABLE.iter().chain(c02::TABLE.iter()).chain(c03::TABLE.iter()).chain(c04::TABLE.iter()).chain(c04::agreement::TABLE.iter()).chain(c05::TABLE.iter()).chain(c06::TABLE.iter()).chain(c07::TABLE.iter()).chain(c08::TABLE.iter()).chain(c09::TABLE.iter()).chain(c10::TABLE.iter()).chain(c11::TABLE.iter()).chain(c12::TABLE.iter()).chain(c19::TABLE.iter()).chain(c20::TABLE.iter()).chain(serde_table().iter()).chain(c13::TABLE.iter()).chain(c13::solver::TABLE.iter()).chain(c14::TABLE.iter()).chain(c15::TABLE.iter()).chain(c15::solver::TABLE.iter()).chain(c16::TABLE.iter()).chain(c16::solver::TABLE.iter()).chain(c14::nopanic::TABLE.iter())
+    acc::TABLE.iter().chain(c01::TABLE.iter()).chain(c02::TABLE.iter()).chain(c03::TABLE.iter()).chain(c04::TABLE.iter()).chain(c04::agreement::TABLE.iter()).chain(c05::TABLE.iter()).chain(c06::TABLE.iter()).chain(c07::TABLE.iter()).chain(c08::TABLE.iter()).chain(c09::TABLE.iter()).chain(c10::TABLE.iter()).chain(c11::TABLE.iter()).chain(c12::TABLE.iter()).chain(c19::TABLE.iter()).chain(c20::TABLE.iter()).chain(serde_table().iter()).chain(c13::TABLE.iter()).chain(c13::solver::TABLE.iter()).chain(c14::TABLE.iter()).chain(c15::TABLE.iter()).chain(c15::solver::TABLE.iter()).chain(c16::TABLE.iter()).chain(c16::solver::TABLE.iter()).chain(c14::nopanic::TABLE.iter())
 }
